@@ -155,7 +155,11 @@ def _model_manifest(cs):
         hl.append_hash(rm)
     want_recs = []
     used = set()
-    for i in range(rng.randint(0, 12)):
+    nrec = rng.randint(0, 12)
+    if rng.random() < 0.04:
+        nrec = rng.randint(250, 500)  # a manifest of well over 32 KiB (the reader works in blocks)
+        cs.count("big_model_objects")
+    for i in range(nrec):
         p, pcls = _relpath(rng)
         if p in used or p == ".":
             continue
